@@ -5,8 +5,9 @@ CONSTANTS MaxLen = 3
           MaxTorn = 1
           PageBits = 2
           Cadence = "free"
+          Role = "writer"
           TruncOnOpen = TRUE
           Mut = "none"
 VIEW NoHist
-INVARIANTS JournalInEnvelope TypeOK RecoverOK RecoverContig MemView TreeSound HeaderBitProtocol KeyHygiene
+INVARIANTS JournalInEnvelope TypeOK RecoverNodes RecoverOK RecoverContig MemView TreeSound HeaderBitProtocol KeyHygiene
 CHECK_DEADLOCK FALSE
